@@ -104,7 +104,7 @@ class Server:
             elif 'ubsan' in o:
                 ub.append(o['ubsan'])
         if end['end'] != 'ok':
-            raise HarnessError('sweep driver died: %s' % end)
+            return {'driver_died': end, 'summary': end, 'violations': viol, 'fatal': fatal, 'oks': oks, 'ubsan': ub}
         return {'summary': end, 'violations': viol, 'fatal': fatal, 'oks': oks, 'ubsan': ub}
 
     def close(self):
